@@ -62,6 +62,9 @@ def judge(prefix, cand, variant=None):
         # other readers live in the same process; the order state is each
         # reader's own
         recs, err = sut.read_records_lockstep(data)
+
+        if isinstance(err, sut.CompanionDisturbed):
+            return 'readers-share-state', str(err)
     else:
         recs, err = sut.read_records(data, budget=False)
 
